@@ -362,7 +362,24 @@ def run(ctx):
                 sty, src = loop_source(wm, L)
                 e = expand(wm, src)
                 okL = not cycle_without(wm, L[1], L[0], {c['block']}) and (bool(find_calls(e, src_frag)) or src_frag in fields_in(e) or any(src_frag in fields_in(expand(wm, d)) for x in walk(src) if isinstance(x, tuple) and x[0] == 'var' for d in wm.init_of(x[1])))
-                okL = okL and not any(re.search(r'Iterator::(skip|take|filter|step_by|rev)$', c_[3]) for c_ in calls_in(e) if 'write_module' in wm.id)
+                flt = [c_ for c_ in calls_in(e) if re.search(r'Iterator::filter$', c_[3])]
+                defined_only = False
+                if k == 'item' and len(flt) == 1 and len(flt[0][2]) == 2:
+                    # the only admissible filter: exactly the items that have a Rust definition (`category() == Defined`), i.e. the very
+                    # items for which build_item would otherwise return nothing
+                    pf_ = predicate_fn(P, flt[0][2][1])
+                    if pf_ is not None and len(pf_.exits()) == 1 and not pf_.switches():
+                        x_ = strip(expand(pf_, pf_.exits()[0]['expr']))
+                        if x_[0] == 'call' and re.search(r'::eq$', x_[1]) and len(x_[2]) == 2:
+                            a_, b_ = strip(x_[2][0]), strip(x_[2][1])
+                            if b_[0] == 'call' or (b_[0] == 'var'):
+                                a_, b_ = b_, a_
+                            lit_ = strip(expand(pf_, b_))
+                            if lit_[0] == 'const' or lit_[0] == 'promoted':
+                                lit_ = strip(pf_.prog.const_value(lit_)) if hasattr(pf_.prog, 'const_value') else lit_
+                            defined_only = is_call(strip(expand(pf_, a_)), 'ItemDefinition::category') and lit_[0] == 'agg' and lit_[1].endswith('ItemCategory::Defined')
+                ctx.items_defined_only = getattr(ctx, 'items_defined_only', False) or defined_only
+                okL = okL and not any(re.search(r'Iterator::(skip|take|filter|step_by|rev)$', c_[3]) for c_ in calls_in(e) if 'write_module' in wm.id and not (defined_only and c_ is flt[0]))
             ctx.ob(['C14'], 'R-ITER', 'C14-D5|all-%ss-written' % k, okL, 'every %s of the module is appended to the buffer (one write per iteration, unfiltered)' % ('definition' if k == 'item' else 'extern value'), loc(c['span']))
     # prologue / epilogue source: backends.get("rust"), flattened in order
     okb = False
